@@ -1,9 +1,10 @@
 import SudsModel.Driver.C04
 import SudsModel.Driver.C08
+import SudsModel.Driver.C06
 namespace Suds.Driver
 open Lean
 
-def handlers : List Handler := [C04.handle, C08.handle]
+def handlers : List Handler := [C04.handle, C08.handle, C06.handle]
 
 def dispatch (op : String) (j : Json) : Option Json :=
   handlers.findSome? fun h => h op j
